@@ -492,6 +492,34 @@ pub fn judge(findings: &Flat, report: &str, t: &Tables) -> Vec<Finding> {
             });
         }
     }
+    // a category part is present iff the category has findings -- for the QA part, which carries no
+    // total, and for the other two independently of their overview line: the part is there when at
+    // least one section of one of the category's patterns is there
+    for cat in [Cat::Vul, Cat::Opt, Cat::Qa] {
+        let n_sections = parsed
+            .sections
+            .iter()
+            .filter(|s| s.pat.map_or(false, |p| p.cat() == cat))
+            .count();
+        if has(cat) && n_sections == 0 {
+            out.push(Finding {
+                prop: "C12",
+                clause: "part_missing".into(),
+                detail: format!(
+                    "category {} has findings but the report contains no section of any of its patterns (report: {} sections in all)",
+                    cat.name(),
+                    parsed.sections.len()
+                ),
+            });
+        }
+        if !has(cat) && n_sections > 0 && cat == Cat::Qa {
+            out.push(Finding {
+                prop: "C12",
+                clause: "part_without_findings".into(),
+                detail: format!("category qa has no findings but the report contains {} of its sections", n_sections),
+            });
+        }
+    }
     // severity headings
     let mut present = [false; 3];
     for s in parsed
